@@ -232,8 +232,52 @@ func c09Aliasing(r *vc.Run) {
 	}
 }
 
+// c09FaultedRun: the goroutines a round starts to examine its peers also run when the peers' proofs FAIL, and that is when they
+// write their verdicts. One ECDSA resharing (under the race detector like everything in this check) in which both DLN proofs of
+// every new member's round-2 broadcast are altered: every new member sees several peers failing two checks each.
+func c09FaultedRun(r *vc.Run) {
+	var fr faultRunner
+	for _, x := range faultRunners() {
+		if x.proto == "ecdsa_resharing" {
+			fr = x
+		}
+	}
+	rc := fr.build(r.Seed + 77)
+	rc.net.Rng = rand.New(rand.NewSource(r.Seed))
+	rng := rand.New(rand.NewSource(r.Seed + 5))
+	altered := 0
+	rc.net.Tamper = func(c *sched.Copy) {
+		if c.Type != "DGRound2Message1" {
+			return
+		}
+		w := c.Wire
+		for _, fld := range []string{"dlnproof_1", "dlnproof_2"} {
+			if nw, ok := alterField(w, fld, 1, "+1", rng, nil); ok {
+				w = nw
+				altered++
+			}
+		}
+		c.Wire = w
+	}
+	rc.net.Label = "ecdsa_resharing with both DLN proofs of every new member altered (race detector)"
+	rc.net.Run(sched.FIFO, 200000)
+	blamed := 0
+	for _, n := range rc.net.New {
+		if len(n.Culprits) > 0 {
+			blamed++
+		}
+	}
+	desc := "ecdsa_resharing 3 old -> 3 new, dlnproof_1[1] and dlnproof_2[1] of every DGRound2Message1 altered by +1"
+	r.Dist["faulted-run-under-race-detector"]++
+	r.CountCase(desc, altered > 0, fmt.Sprintf("%s => %d fields altered, %d new members reported culprits", desc, altered, blamed))
+	if altered > 0 && blamed == 0 {
+		r.Violate("faulted-run-not-refused|ecdsa_resharing", "every new member's DLN proofs were altered and no new member objected", desc)
+	}
+}
+
 func genC09(r *vc.Run) {
 	c09Aliasing(r)
+	c09FaultedRun(r)
 	r.Rule = "every Start and every UpdateFromBytes in its own goroutine with seeded jitter, plus pollers calling WaitingFor on every party, for the six protocols, built with the Go race detector; per party the set of delivered messages is replayed on the engine model (by the confluence theorem any order gives the same final state): final round and result count must agree; oracles: each party's result exactly once, result predicates of C01-C04, no 'DATA RACE' report, no timeout; non-trivial = all runs"
 	runs := protoRuns(r)
 	// ECDSA signing on a curve the application registered itself (NIST P-256), three signers: the per-peer verification
